@@ -53,13 +53,15 @@ Definition bin1 (oc : Z) (p : bool) (x y : dual float) : list Z :=
   match oc with
   | 0 => ok (wr_dual (dadd p x y)) | 1 => ok (wr_dual (dsub p x y)) | 2 => ok (wr_dual (dmul p x y))
   | 3 => ok (wr_dual (ddiv p x y)) | 4 => ok (wr_dual (drem p x y))
-  | 5 => wb (deqb p x y) | 6 => wb (dltb x y) | 7 => wb (dleb x y) | 8 => wb (dltb y x) | _ => wb (dleb y x)
+  | 5 => wb (deqb p x y) | 6 => wb (dltb x y) | 7 => wb (dleb x y) | 8 => wb (dltb y x)
+  | 10 => ok (wr_dual (dabs_sub p x y)) | _ => wb (dleb y x)
   end.
 Definition bin2 (oc : Z) (p : bool) (x y : dual2 float) : list Z :=
   match oc with
   | 0 => ok (wr_dual2 (d2add p x y)) | 1 => ok (wr_dual2 (d2sub p x y)) | 2 => ok (wr_dual2 (d2mul p x y))
   | 3 => ok (wr_dual2 (d2div p x y)) | 4 => ok (wr_dual2 (d2rem p x y))
-  | 5 => wb (d2eqb p x y) | 6 => wb (d2ltb x y) | 7 => wb (d2leb x y) | 8 => wb (d2ltb y x) | _ => wb (d2leb y x)
+  | 5 => wb (d2eqb p x y) | 6 => wb (d2ltb x y) | 7 => wb (d2leb x y) | 8 => wb (d2ltb y x)
+  | 10 => ok (wr_dual2 (d2abs_sub p x y)) | _ => wb (d2leb y x)
   end.
 (* sharing is only possible when the variable lists are equal (harness: share1/share2) *)
 Definition pflag (p : Z) (xs ys : list name) : bool := (p =? 1) && same_vars xs ys.
@@ -165,7 +167,7 @@ Definition runDual (c : list Z) : list Z :=
       | 0 => out_num (num_add false x y) | 1 => out_num (num_sub false x y) | 2 => out_num (num_mul false x y)
       | 3 => out_num (num_div false x y) | 4 => out_num (num_rem false x y)
       | 5 => out_bool (num_eqb false x y) | 6 => out_bool (num_ltb x y) | 7 => out_bool (num_leb x y)
-      | 8 => out_bool (num_ltb y x) | _ => out_bool (num_leb y x)
+      | 8 => out_bool (num_ltb y x) | 10 => out_num (num_abs_sub false x y) | _ => out_bool (num_leb y x)
       end
   | 13 :: oc :: side :: r =>
       let '(x, r1) := rd_number r in let '(f, _) := rd_f r1 in
@@ -189,6 +191,7 @@ Definition runDual (c : list Z) : list Z :=
       | 5 => ok (wr_number (num_ncdf x)) | 6 => ok (wr_number (num_nicdf x)) | 7 => ok (wr_number (num_abs x))
       | 8 => ok (wr_number (num_signum x)) | 9 => wb (num_is_zero x)
       | 10 => ok (wr_number num_zero) | 11 => ok (wr_number num_one)
+      | 13 => wb (negb (sign_neg (num_real x))) | 14 => wb (sign_neg (num_real x))
       | _ => ok (wr_number (num_pow x p))
       end
   | 15 :: r =>
@@ -197,6 +200,63 @@ Definition runDual (c : list Z) : list Z :=
           wr_dual2 (num_to_dual2 x) ++ wr_dual2 (num_to_dual2 x))
   | 16 :: n :: r =>
       let '(l, _) := rd_many rd_number (Z.to_nat n) r in out_num (num_sum l)
+  (* From conversions out of / into the plain kinds: 17 0 f | 17 1 dual | 17 2 dual2 *)
+  | 17 :: 0 :: r =>
+      let '(f, _) := rd_f r in
+      ok (wr_dual (dual_of_f f) ++ wr_dual2 (dual2_of_f f) ++ wr_number (num_of_f f) ++ wr_number (num_of_f f))
+  | 17 :: 1 :: r =>
+      let '(x, _) := rd_dual r in ok (wr_f (f_of_dual x) ++ wr_f (f_of_dual x) ++ wr_number (num_of_dual x) ++ wr_number (num_of_dual x))
+  | 17 :: _ :: r =>
+      let '(x, _) := rd_dual2 r in ok (wr_f (f_of_dual2 x) ++ wr_f (f_of_dual2 x) ++ wr_number (num_of_dual2 x) ++ wr_number (num_of_dual2 x))
+  (* 22 try_new_from: kind okind other-names re names nd du* [ndd dd*]   (other = a number of kind okind on those names:
+     only its de-duplicated variable list matters) *)
+  | 22 :: 1 :: _ :: r =>
+      let '(os, r0) := rd_names r in
+      let '(x, r1) := rd_f r0 in let '(ws, r2) := rd_names r1 in
+      match r2 with
+      | nd :: r3 => let '(d, _) := rd_fs (Z.to_nat nd) r3 in
+                    match dual_try_new_from (dedup os) x ws d with Ok v => ok (wr_dual v) | Err => [1] | Panic => [2] end
+      | [] => [-1]
+      end
+  | 22 :: _ :: _ :: r =>
+      let '(os, r0) := rd_names r in
+      let '(x, r1) := rd_f r0 in let '(ws, r2) := rd_names r1 in
+      match r2 with
+      | nd :: r3 => let '(d, r4) := rd_fs (Z.to_nat nd) r3 in
+          match r4 with
+          | ndd :: r5 => let '(dd, _) := rd_fs (Z.to_nat ndd) r5 in
+                         match dual2_try_new_from (dedup os) x ws d dd with Ok v => ok (wr_dual2 v) | Err => [1] | Panic => [2] end
+          | [] => [-1]
+          end
+      | [] => [-1]
+      end
+  (* 23 new_from: kind okind other-names re names *)
+  | 23 :: 1 :: _ :: r =>
+      let '(os, r0) := rd_names r in
+      let '(x, r1) := rd_f r0 in let '(ws, _) := rd_names r1 in ok (wr_dual (dual_new_from (dedup os) x ws))
+  | 23 :: _ :: _ :: r =>
+      let '(os, r0) := rd_names r in
+      let '(x, r1) := rd_f r0 in let '(ws, _) := rd_names r1 in ok (wr_dual2 (dual2_new_from (dedup os) x ws))
+  (* 24 to_new_vars(target, None) called directly: kind mode x target-names; mode 1 = the target is x's own Arc
+     (the names are then x's), mode 0 = a separately built list.  Followed by two sharing observations that the
+     model fixes by construction: the result holds the target Arc (1), x shares it (p) *)
+  | 24 :: 1 :: mode :: r =>
+      let '(x, r1) := rd_dual r in let '(ws, _) := rd_names r1 in
+      let tg := if mode =? 1 then vs x else dedup ws in
+      let p := pflag mode (vs x) tg in
+      ok (wr_dual (to_new_vars_auto p x tg) ++ [1; zb p])
+  | 24 :: _ :: mode :: r =>
+      let '(x, r1) := rd_dual2 r in let '(ws, _) := rd_names r1 in
+      let tg := if mode =? 1 then vs2 x else dedup ws in
+      let p := pflag mode (vs2 x) tg in
+      ok (wr_dual2 (to_new_vars2_auto p x tg) ++ [1; zb p])
+  (* 25 to_union_vars(&y, None) called directly: kind p x y -> both results, then ptr_eq of the two results (always) *)
+  | 25 :: 1 :: p :: r =>
+      let '(x, r1) := rd_dual r in let '(y, _) := rd_dual r1 in
+      let '(a, b) := to_union_vars_auto (pflag p (vs x) (vs y)) x y in ok (wr_dual a ++ wr_dual b ++ [1])
+  | 25 :: _ :: p :: r =>
+      let '(x, r1) := rd_dual2 r in let '(y, _) := rd_dual2 r1 in
+      let '(a, b) := to_union_vars2_auto (pflag p (vs2 x) (vs2 y)) x y in ok (wr_dual2 a ++ wr_dual2 b ++ [1])
   | 20 :: r =>
       let '(x, r1) := rd_f r in let '(ws, r2) := rd_names r1 in
       match r2 with
